@@ -93,7 +93,12 @@ def gen_case(rng, tier):
         sel = rng.sample(file_modes, rng.randint(1, len(file_modes)))
         targets = rng.sample(["TE", "TM", "te", "q", "m1"], len(sel))
         mm = {s: t for s, t in zip(sel, targets)}
-        if rng.random() < 0.3:
+        real = [m for m in file_modes if m != ""]
+        if len(real) >= 2 and rng.random() < 0.4:
+            # new mode names that overlap the old ones: a swap, or a chain listed in the "unlucky" order
+            a, b = rng.sample(real, 2)
+            mm = {a: b, b: a} if rng.random() < 0.6 else {a: b, b: rng.choice(["q", "m1"])}
+        elif rng.random() < 0.3:
             mm[rng.choice(sel)] = ""
         kept = []
         for b, m in pins:
